@@ -1394,6 +1394,9 @@ pub fn run_forward(r: &mut Rng, n: usize, out: &mut Out) {
                                 // answer is what the client gets
                                 if addrs != want(99) {
                                     v.push("fail:C18:tcp-retry-answer-not-returned".into());
+                                    // (the same socket code carries recursive resolution: what the upstream
+                                    // holds does not reach the client)
+                                    v.push("fail:C07:upstream-answer-over-tcp-not-returned".into());
                                 } else if !answered.contains(&qname) {
                                     if !fwd.tcp_log.lock().unwrap().contains(&qname) {
                                         v.push("fail:C18:answer-without-tcp-exchange".into());
